@@ -77,6 +77,18 @@ if make_backend is not None:
             res = ["RAISED", type(e).__name__, str(e)]
         outs2.append({"queries": res, "errors": [[r.title, type(e).__name__, str(e)] for r, e in b.errors]})
     sections["conversions_verification_backend"] = outs2
+# 3c. validator configuration errors (messages built from the set of validator names)
+from sigma.validation import SigmaValidator as _SV
+from sigma.validators.core import validators as _V
+cfg_errs = []
+for spec in ({"validators": ["identifier_existence", "identifier_uniqueness", "dangling_detection", "duplicate_title", "-nonexistent"]},
+             {"validators": ["all", "-zz_unknown"]}, {"validators": ["nosuchvalidator"]}):
+    try:
+        _SV.from_dict(spec, _V)
+        cfg_errs.append(["ok"])
+    except SigmaError as e:
+        cfg_errs.append([type(e).__name__, str(e)])
+sections["validator_config_errors"] = cfg_errs
 # 4. validation
 if corpus.get("validate"):
     from sigma.validation import SigmaValidator
